@@ -509,9 +509,11 @@ def send_tx(
                     ]
                 )
             elif addr_types[0] in ["p2wsh", "p2sh-p2wsh"]:
-                scriptcode = len(redeem_script).to_bytes(1, "big") + redeem_script
+                scriptcode = (
+                    bits.compact_size_uint(len(redeem_script)) + redeem_script
+                )
                 # see test_bip143:test_p2sh_p2wsh ^^ regarding non-use of OP_PUSHDATA
-                # but, how to serialize when len(redeem_script) > 255 ?
+                # length is a compact size uint, as for scripts inside txouts (BIP143)
             msgs = [
                 bip143.witness_message(
                     txins,
